@@ -9,7 +9,7 @@
 #include <sys/wait.h>
 #include <time.h>
 
-typedef struct Src { char name[48]; char *text; bool multi; bool bad; bool example; bool rel; bool roots; } Src;
+typedef struct Src { char name[48]; char *text; bool multi; bool bad; bool example; bool rel; bool roots; bool six; } Src;
 static Src srcs[160]; static int nsrcs;
 static char *slurp_text(const char *p) {
     FILE *f = __real_fopen(p, "rb"); if (!f) return NULL;
@@ -41,6 +41,7 @@ static void srcs_load(void) {
     }
     Src *s = &srcs[nsrcs++]; memset(s, 0, sizeof *s); strcpy(s->name, "multi"); s->multi = true;
     s = &srcs[nsrcs++]; memset(s, 0, sizeof *s); strcpy(s->name, "multi_rel"); s->multi = true; s->rel = true;
+    s = &srcs[nsrcs++]; memset(s, 0, sizeof *s); strcpy(s->name, "six"); s->multi = true; s->six = true;   /* six sibling modules, each with a top-level let */
     s = &srcs[nsrcs++]; memset(s, 0, sizeof *s); strcpy(s->name, "roots"); s->multi = true; s->roots = true;   /* imports from two directories (lib/, modules/util/), input spelled bare, with ./ and absolutely */   /* copies at two absolute locations, relative command */
     /* a program whose code section outgrows every initial buffer of the compiler (hundreds of functions) */
     { Buf b = {0};
@@ -185,6 +186,8 @@ static void compile_once(EPlan *P, Cfg *c, uint64_t seed, Outs *o) {
         if (__real_chdir(cwd) != 0) return;
         static const char *sp3[] = { "prog.nano", "./prog.nano", "/verif/corpus19/roots/prog.nano" };
         snprintf(input, sizeof input, "%s", sp3[c->pathstyle % 3]); snprintf(inabs, sizeof inabs, "%s", sp3[2]);
+    } else if (s->six) {
+        snprintf(input, sizeof input, "/verif/corpus19/six/main.nano"); snprintf(inabs, sizeof inabs, "%s", input);
     } else if (s->multi) {
         /* real, read-only source tree; spelling varies */
         const char *sp[] = { "/verif/corpus19/multi/main.nano", "/verif/corpus19/./multi/main.nano", "/verif/corpus19/multi/../multi/main.nano", "/verif//corpus19/multi/main.nano" };
@@ -240,7 +243,7 @@ static void compile_once(EPlan *P, Cfg *c, uint64_t seed, Outs *o) {
     if (s->roots) {
         Buf *all[4] = { &o->out, &o->err, &o->genc, &o->tmpc };
         for (int i = 0; i < 4; i++) { replace_all(all[i], "/verif/corpus19/roots/", ""); replace_all(all[i], "./lib/", "lib/"); replace_all(all[i], "./modules/", "modules/"); replace_all(all[i], "./prog.nano", "prog.nano"); }
-    } else if (s->multi && !s->rel) {
+    } else if (s->multi && !s->rel && !s->six) {
         /* the path of an imported module is embedded as spelled (module introspection): normalised here so that any
          * OTHER difference is still seen; the embedding itself is reported separately (known finding) */
         static const char *dsp[] = { "/verif/corpus19/./multi", "/verif/corpus19/multi/../multi", "/verif//corpus19/multi" };
